@@ -13,7 +13,7 @@
 (* Resolve ok/err, the verdict vector over uniquely marked targets, and    *)
 (* the set of Loader calls.                                                *)
 (***************************************************************************)
-EXTENDS ResolverCode, Eval, Json
+EXTENDS ResolverCode, Eval, Json, SequencesExt
 
 CONSTANTS Family, K
 
@@ -106,8 +106,6 @@ R2Insts(emb) ==
             \cup {Obj([r |-> Obj([r |-> Obj([r |-> Num(Mark[i])])])]) : i \in {1, 5, 6}}
             \cup {Obj([r2 |-> Num(Mark[i])]) : i \in {1, 5, 6}}
   IN {R2Wrap(emb, v) : v \in vs}
-RECURSIVE SetToSeq(_)
-SetToSeq(S) == IF S = {} THEN <<>> ELSE LET x == CHOOSE y \in S : TRUE IN <<x>> \o SetToSeq(S \ {x})
 R2Cases(z) ==
   {[u |-> [docs |-> <<[uri |-> RootU, s |-> R2Root(refs, emb)],
                       [uri |-> RemU, s |-> RemDoc(canon, ri)],
